@@ -134,7 +134,8 @@ def corpus():
     out = []
     for fluid, scale in (("water", 0.05), ("lgas", 0.002)):
         ops = [_j(i) for i in range(9)]
-        ops += [["create_ext_grid", {"index": 0, "junction": 0, "p_bar": 5.0, "t_k": 300.0}],
+        ops += [["create_ext_grid", {"index": 2, "junction": 0, "p_bar": 5.5, "t_k": 310.0, "in_service": False}],
+                ["create_ext_grid", {"index": 0, "junction": 0, "p_bar": 5.0, "t_k": 300.0}],
                 ["create_ext_grid", {"index": 1, "junction": 2, "p_bar": 5.0, "t_k": 300.0, "in_service": False}],
                 _pipe(10, 0, 1), _pipe(4, 1, 2, sections=3), _pipe(7, 0, 2), _pipe(2, 2, 3, sections=2), _pipe(9, 0, 5),
                 # controlling flow controller and heat consumer parallel to pipes: both junctions supplied anyway
@@ -180,8 +181,8 @@ def corpus():
             ["create_flow_control", {"index": 0, "from_junction": 1, "to_junction": 6, "controlled_mdot_kg_per_s": 0.2}],
             ["create_heat_exchanger", {"index": 0, "from_junction": 6, "to_junction": 4, "qext_w": 5000.0,
                                        "inner_diameter_mm": 80.0}],
-            ["create_circ_pump_const_pressure", {"index": 1, "return_junction": 3, "flow_junction": 0, "p_flow_bar": 6.0,
-                                                 "plift_bar": 1.5, "t_flow_k": 360.0, "in_service": False}],
+            ["create_circ_pump_const_pressure", {"index": 1, "return_junction": 3, "flow_junction": 0, "p_flow_bar": 7.0,
+                                                 "plift_bar": 2.0, "t_flow_k": 370.0, "in_service": False}],
             ["create_circ_pump_const_pressure", {"index": 0, "return_junction": 3, "flow_junction": 0, "p_flow_bar": 6.0,
                                                  "plift_bar": 1.5, "t_flow_k": 360.0}],
             ["create_circ_pump_const_mass_flow", {"index": 0, "return_junction": 4, "flow_junction": 1, "p_flow_bar": 6.0,
@@ -330,7 +331,8 @@ def reach_oracle(npit, bpit, net=None):
             if not dr[i]:
                 adj[to[i]].append(fr[i])
     reached = np.zeros(N, dtype=bool)
-    stack = [i for i in range(N) if npit[i, n.NODE_TYPE] == n.P and npit[i, n.ACTIVE]]
+    isP = cc.doc_slack(net) if net is not None else (npit[:, n.NODE_TYPE] == n.P)
+    stack = [i for i in range(N) if isP[i] and npit[i, n.ACTIVE]]
     for i in stack:
         reached[i] = True
     while stack:
@@ -664,6 +666,7 @@ def monitors(ctx, widen=False):
             except Exception:  # noqa: BLE001
                 import traceback
                 ctx.broken("harness", "C04 corpus monitor " + name, traceback.format_exc()[-600:])
+        no_supply_monitor(ctx, spec)
     n = 28 if ctx.quick else 400
     if widen:
         n *= 3
